@@ -198,6 +198,9 @@ func c11(p *core.Prog, r *core.Report) {
 	r.Rule("C11-R6", "E6 who-may-call/paths", 6, "relay pending count is balanced (shared with C09)")
 	r.Alias("C09-R3", "C11-R6")
 	c09Pending(p, r)
+	// ... and an item can only be brought back to zero if it is looked up
+	// under the id that keys this connection's table (shared with C08-R2)
+	c08PostRemapIDs(p, r, "C11-R6")
 	r.Alias("C09-R3", "")
 }
 
@@ -429,7 +432,8 @@ func c11Removal(p *core.Prog, r *core.Report) {
 	if f := mustFunc(p, r, "", "Channel", "newConnection"); f != nil {
 		want := map[string]string{"inbound.onRemoved": "checkExchanges", "outbound.onRemoved": "checkExchanges"}
 		got := map[string]string{}
-		core.EachInstr(f, func(i ssa.Instruction) {
+		// (in newConnection or a helper it calls to wire the callbacks)
+		scan := func(i ssa.Instruction) {
 			st, ok := i.(*ssa.Store)
 			if !ok {
 				return
@@ -449,7 +453,10 @@ func c11Removal(p *core.Prog, r *core.Report) {
 					got[set+".onRemoved"] = t.Name()
 				}
 			}
-		})
+		}
+		for _, g := range p.FuncsDeep(f, 1) {
+			core.EachInstr(g, scan)
+		}
 		for k, v := range want {
 			r.Check(got[k] == v, "C11-R2", fname(f), k+" = "+v, p.Pos(f.Pos()), "bound at construction", fmt.Sprintf("%s is bound to %q", k, got[k]))
 		}
